@@ -315,16 +315,19 @@ func (db *DB) OpenTransaction() (*Transaction, error) {
 	// Flush current memdb.
 	if db.mem != nil && db.mem.Len() != 0 {
 		if _, err := db.rotateMem(0, true); err != nil {
+			<-db.writeLockC
 			return nil, err
 		}
 	} else if err := db.compTriggerWait(db.mcompCmdC); err != nil {
 		// The write buffer is empty, but a frozen one may still be waiting to
 		// be flushed; the transaction must not be ordered before it.
+		<-db.writeLockC
 		return nil, err
 	}
 
 	// Wait compaction when certain threshold reached.
 	if err := db.waitCompaction(); err != nil {
+		<-db.writeLockC
 		return nil, err
 	}
 
